@@ -86,7 +86,16 @@ def run(model: Model, rep: Report) -> None:
     r6 = rep.rule("C02-R6", "BIND", "object-stream member lookup: objs[N*2 + index] with index from the xref entry; xref-stream entry fields", 4)
     om = model.func(DOC + "._getobj_objstm")
     src = unparse(om.node).replace(" ", "")
-    r6.check("i=n*2+index" in src and "objs[i]" in src and om.params[1:4] == ["stream", "index", "objid"], site(om), om.qualname, "member = objs[n*2 + index] (after the N pairs of the header)", why="index computation changed")
+    from ..norm import NotPolynomial, Poly, SymEval
+
+    idx_ok = False
+    for a in walk_no_nested(om.node):
+        if isinstance(a, ast.Assign) and unparse(a.targets[0]) == "i":
+            try:
+                idx_ok = SymEval(opaque_ok=False).expr(a.value, {}) == Poly.const(2) * Poly.var("n") + Poly.var(om.params[2])
+            except NotPolynomial:
+                idx_ok = False
+    r6.check(idx_ok and "objs[i]" in src and om.params[1:4] == ["stream", "index", "objid"], site(om), om.qualname, "member = objs[n*2 + index] (after the N pairs of the header)", why="index computation changed")
     gsrc = unparse(go.node).replace(" ", "")
     r6.check("strmid,index,genno=xref.get_pos(objid)" in gsrc.replace("(strmid,index,genno)", "strmid,index,genno") and "self._getobj_objstm(stream,index,objid)" in gsrc and "stream_value(self.getobj(strmid))" in gsrc, site(go), go.qualname, "getobj passes the entry's (stream id, index) to the object-stream lookup", why="binding changed")
     gp = model.func(D + "PDFXRefStream.get_pos")
